@@ -17,7 +17,7 @@ use tokio::sync::mpsc;
 
 use crate::{
     engine_s::{Status, Strat},
-    exec::{catch_quiet, Chooser, Ev, FlagWaker, Taken},
+    exec::{catch_quiet, Chooser, ChooserRef, Ev, FlagWaker, Taken},
     node::Node,
 };
 
@@ -172,212 +172,281 @@ fn mix(h: u64, v: u64) -> u64 {
 }
 
 pub fn run_c(g: &FnGraph<Node>, cfg: &CCfg, prefix: Vec<u16>) -> CRes {
-    let mut ch = Chooser::new(prefix);
-    let mut ev = Vec::with_capacity(64);
-    let mut states = Vec::with_capacity(16);
-    let mut polls = 0usize;
-    let r = catch_quiet(|| run_c_inner(g, cfg, &mut ch, &mut ev, &mut states, &mut polls));
+    let ch = Chooser::shared(prefix);
+    let (itx, mut irx) = mpsc::channel::<InterruptSignal>(4);
+    let mut out: Option<(Vec<Ev>, Vec<Taken>, usize, Vec<u64>)> = None;
+    let r = catch_quiet(|| {
+        let mut d = CDriver::new(g, cfg, &mut irx, itx, ch.clone());
+        let r = loop {
+            // a panic inside a step leaves the driver's log intact for the report
+            match catch_quiet(|| d.step()) {
+                Ok(Some(end)) => break Ok(end),
+                Ok(None) => {}
+                Err(m) => break Err(m),
+            }
+        };
+        out = Some(d.take_logs());
+        r
+    });
+    let (ev, taken, polls, states) = out.unwrap_or_default();
     let (status, end) = match r {
-        Ok((s, e)) => (s, e),
-        Err(msg) => (Status::Panic(msg), None),
+        Ok(Ok((s, e))) => (s, e),
+        Ok(Err(msg)) | Err(msg) => (Status::Panic(msg), None),
     };
-    CRes { status, end, ev, diverged: ch.diverged, taken: ch.taken, polls, states }
+    let diverged = ch.borrow().diverged;
+    CRes { status, end, ev, diverged, taken, polls, states }
 }
 
-fn run_c_inner<'g>(
-    g: &'g FnGraph<Node>,
-    cfg: &CCfg,
-    ch: &mut Chooser,
-    ev: &mut Vec<Ev>,
-    states: &mut Vec<u64>,
-    polls: &mut usize,
-) -> (Status, Option<CEnd>) {
-    let n = g.graph.node_count();
-    let (itx, mut irx) = mpsc::channel::<InterruptSignal>(4);
-    let state = match cfg.strat {
-        Strat::Non => InterruptibilityState::new_non_interruptible(),
-        Strat::Ignore => InterruptibilityState::new_ignore_interruptions((&mut irx).into()),
-        Strat::Finish => InterruptibilityState::new_finish_current((&mut irx).into()),
-        Strat::NextN(k) => InterruptibilityState::new_poll_next_n((&mut irx).into(), k),
-    };
-    let opts = crate::engine_s::build_opts(cfg.opts_order, state, cfg.include, cfg.rev);
-    fn po<'a>(p: PollOutcome<FnRef<'a, Node>>) -> Item<'a> {
-        match p {
-            PollOutcome::NoInterrupt(r) => Item::NoInt(r),
-            PollOutcome::Interrupted(r) => Item::Int(r),
+/// The consumer explorer as a state machine: every `step` is one consumer decision.
+pub struct CDriver<'g> {
+    // the stream is declared before the FnRefs so that it is dropped first unless the explorer
+    // decides otherwise
+    s: Option<BoxS<'g>>,
+    held: Vec<Option<FnRef<'g, Node>>>,
+    cfg: &'g CCfg,
+    itx: mpsc::Sender<InterruptSignal>,
+    ch: ChooserRef,
+    local: Vec<Taken>,
+    ev: Vec<Ev>,
+    states: Vec<u64>,
+    polls: usize,
+    n: usize,
+    fw: Arc<FlagWaker>,
+    first: bool,
+    last_ready: bool,
+    ended: bool,
+    int_sent: bool,
+    dirty: bool,
+    spurious: u8,
+    budget_polls: u8,
+    draining: bool,
+    horizon: usize,
+    acts: Vec<Act>,
+    yielded: Vec<bool>,
+}
+
+impl<'g> CDriver<'g> {
+    pub fn new(g: &'g FnGraph<Node>, cfg: &'g CCfg, irx: &'g mut mpsc::Receiver<InterruptSignal>, itx: mpsc::Sender<InterruptSignal>, ch: ChooserRef) -> Self {
+        let n = g.graph.node_count();
+        let state = match cfg.strat {
+            Strat::Non => InterruptibilityState::new_non_interruptible(),
+            Strat::Ignore => InterruptibilityState::new_ignore_interruptions(irx.into()),
+            Strat::Finish => InterruptibilityState::new_finish_current(irx.into()),
+            Strat::NextN(k) => InterruptibilityState::new_poll_next_n(irx.into(), k),
+        };
+        let opts = crate::engine_s::build_opts(cfg.opts_order, state, cfg.include, cfg.rev);
+        fn po<'a>(p: PollOutcome<FnRef<'a, Node>>) -> Item<'a> {
+            match p {
+                PollOutcome::NoInterrupt(r) => Item::NoInt(r),
+                PollOutcome::Interrupted(r) => Item::Int(r),
+            }
+        }
+        let s: BoxS<'g> = match cfg.api {
+            SApi::Stream => Box::pin(g.stream().map(Item::Plain)),
+            SApi::StreamWith => Box::pin(g.stream_with(opts).map(Item::Plain)),
+            SApi::StreamInterruptible => Box::pin(g.stream_interruptible().map(po)),
+            SApi::StreamWithInterruptible => Box::pin(g.stream_with_interruptible(opts).map(po)),
+        };
+        CDriver {
+            s: Some(s),
+            held: (0..n).map(|_| None).collect(),
+            cfg,
+            itx,
+            ch,
+            local: Vec::with_capacity(32),
+            ev: Vec::with_capacity(64),
+            states: Vec::with_capacity(16),
+            polls: 0,
+            n,
+            fw: FlagWaker::new(),
+            first: true,
+            last_ready: false,
+            ended: false,
+            int_sent: !(cfg.interrupt && cfg.strat != Strat::Non),
+            dirty: false,
+            spurious: cfg.spurious,
+            budget_polls: cfg.budget_polls,
+            draining: false,
+            horizon: 8 * n + 32 + cfg.spurious as usize + 4 * cfg.budget_polls as usize,
+            acts: Vec::with_capacity(n + 4),
+            yielded: vec![false; n],
         }
     }
-    // `held` is declared before the stream so that it is dropped after it unless the
-    // explorer decides otherwise.
-    let mut held: Vec<Option<FnRef<'_, Node>>> = (0..n).map(|_| None).collect();
-    let mut s: Option<BoxS<'_>> = Some(match cfg.api {
-        SApi::Stream => Box::pin(g.stream().map(Item::Plain)),
-        SApi::StreamWith => Box::pin(g.stream_with(opts).map(Item::Plain)),
-        SApi::StreamInterruptible => Box::pin(g.stream_interruptible().map(po)),
-        SApi::StreamWithInterruptible => Box::pin(g.stream_with_interruptible(opts).map(po)),
-    });
-    let mut fw = FlagWaker::new();
-    let mut first = true;
-    let mut last_ready = false;
-    let mut ended = false;
-    let mut int_sent = !(cfg.interrupt && cfg.strat != Strat::Non);
-    let mut dirty = false;
-    let mut spurious = cfg.spurious;
-    let mut budget_polls = cfg.budget_polls;
-    let mut draining = false;
-    let horizon = 8 * n + 32 + cfg.spurious as usize + 4 * cfg.budget_polls as usize;
-    let mut acts: Vec<Act> = Vec::with_capacity(n + 4);
-    let mut yielded = vec![false; n];
-    loop {
-        let alive = s.is_some() && !ended;
-        let woken = fw.woken();
-        let poll_ok = alive && (first || woken || last_ready);
-        acts.clear();
+
+    fn choose(&mut self, k: usize, default: usize) -> usize {
+        let c = self.ch.borrow_mut().choose(k, default);
+        self.local.push(Taken { c: c as u16, k: k as u16, d: default as u16 });
+        c
+    }
+
+    /// (events, this run's own choices, polls, abstract states)
+    pub fn take_logs(&mut self) -> (Vec<Ev>, Vec<Taken>, usize, Vec<u64>) {
+        (std::mem::take(&mut self.ev), std::mem::take(&mut self.local), self.polls, std::mem::take(&mut self.states))
+    }
+
+    /// One consumer decision. Returns Some(..) when the run is over.
+    pub fn step(&mut self) -> Option<(Status, Option<CEnd>)> {
+        let n = self.n;
+        let cfg = self.cfg;
+        let alive = self.s.is_some() && !self.ended;
+        let woken = self.fw.woken();
+        let poll_ok = alive && (self.first || woken || self.last_ready);
+        self.acts.clear();
         if poll_ok {
-            acts.push(Act::Poll);
+            self.acts.push(Act::Poll);
         }
         let mut first_drop = None;
         for i in 0..n {
-            if held[i].is_some() {
+            if self.held[i].is_some() {
                 if first_drop.is_none() {
-                    first_drop = Some(acts.len());
+                    first_drop = Some(self.acts.len());
                 }
-                acts.push(Act::Drop(i));
+                self.acts.push(Act::Drop(i));
             }
         }
-        if alive && !int_sent && !dirty {
-            acts.push(Act::Interrupt);
+        if alive && !self.int_sent && !self.dirty {
+            self.acts.push(Act::Interrupt);
         }
-        if alive && !poll_ok && spurious > 0 {
-            acts.push(Act::Spurious);
+        if alive && !poll_ok && self.spurious > 0 {
+            self.acts.push(Act::Spurious);
         }
-        if alive && !first && cfg.drop_stream {
-            acts.push(Act::DropStream);
+        if alive && !self.first && cfg.drop_stream {
+            self.acts.push(Act::DropStream);
         }
         {
             let mut h = 0xcbf29ce484222325u64;
-            for i in 0..n {
-                h = mix(h, yielded[i] as u64 | (held[i].is_some() as u64) << 1);
+            if n <= 64 {
+                for i in 0..n {
+                    h = mix(h, self.yielded[i] as u64 | (self.held[i].is_some() as u64) << 1);
+                }
+            } else {
+                h = mix(h, self.ev.len() as u64);
             }
-            h = mix(h, woken as u64 | (int_sent as u64) << 1 | (first as u64) << 2 | (last_ready as u64) << 3 | (ended as u64) << 4 | (s.is_some() as u64) << 5 | (dirty as u64) << 6);
-            states.push(h);
+            h = mix(
+                h,
+                woken as u64 | (self.int_sent as u64) << 1 | (self.first as u64) << 2 | (self.last_ready as u64) << 3 | (self.ended as u64) << 4 | (self.s.is_some() as u64) << 5 | (self.dirty as u64) << 6,
+            );
+            self.states.push(h);
         }
-        if !acts.iter().any(|a| matches!(a, Act::Poll | Act::Drop(_))) {
+        if !self.acts.iter().any(|a| matches!(a, Act::Poll | Act::Drop(_))) {
             // nothing legitimate left to do
-            let end = if s.is_none() {
+            let end = if self.s.is_none() {
                 CEnd::StreamDropped
-            } else if ended {
+            } else if self.ended {
                 CEnd::Ended
             } else {
                 CEnd::Parked
             };
-            drop(s);
-            return (Status::Returned, Some(end));
+            self.s = None;
+            return Some((Status::Returned, Some(end)));
         }
         let default = match cfg.base {
             CBase::Eager => 0,
             CBase::DropFirst => first_drop.unwrap_or(0),
             CBase::HoldThenDropAll => {
                 if first_drop.is_none() {
-                    draining = false;
+                    self.draining = false;
                 } else if !poll_ok {
-                    draining = true;
+                    self.draining = true;
                 }
-                if draining {
+                if self.draining {
                     first_drop.unwrap_or(0)
                 } else {
                     0
                 }
             }
         };
-        let c = ch.choose(acts.len(), default);
-        match acts[c] {
+        let c = self.choose(self.acts.len(), default);
+        match self.acts[c] {
             Act::Poll | Act::Spurious => {
-                let sp = matches!(acts[c], Act::Spurious);
+                let sp = matches!(self.acts[c], Act::Spurious);
                 if sp {
-                    spurious -= 1;
+                    self.spurious -= 1;
                 }
                 let mut budget: Option<u16> = None;
-                if !cfg.budgets.is_empty() && budget_polls > 0 {
-                    let b = ch.choose(cfg.budgets.len() + 1, 0);
+                if !cfg.budgets.is_empty() && self.budget_polls > 0 {
+                    let b = self.choose(cfg.budgets.len() + 1, 0);
                     if b > 0 {
-                        budget_polls -= 1;
+                        self.budget_polls -= 1;
                         budget = Some(cfg.budgets[b - 1]);
-                        ev.push(Ev::Budget(cfg.budgets[b - 1]));
+                        self.ev.push(Ev::Budget(cfg.budgets[b - 1]));
                     }
                 }
-                first = false;
-                dirty = false;
+                self.first = false;
+                self.dirty = false;
                 if cfg.fresh_waker {
-                    fw = FlagWaker::new();
+                    self.fw = FlagWaker::new();
                 }
-                fw.clear();
-                let waker = Waker::from(Arc::clone(&fw));
+                self.fw.clear();
+                let waker = Waker::from(Arc::clone(&self.fw));
                 let mut cx = Context::from_waker(&waker);
-                ev.push(Ev::Poll { spurious: sp });
-                *polls += 1;
-                if *polls > horizon {
-                    return (Status::Livelock, None);
+                self.ev.push(Ev::Poll { spurious: sp });
+                self.polls += 1;
+                if self.polls > self.horizon {
+                    return Some((Status::Livelock, None));
                 }
-                let st = s.as_mut().unwrap();
+                let st = self.s.as_mut().unwrap();
                 let p = match budget {
                     None => st.as_mut().poll_next(&mut cx),
                     Some(b) => crate::budget::poll_with_budget(b, || st.as_mut().poll_next(&mut cx)),
                 };
                 match p {
                     Poll::Ready(Some(item)) => {
-                        last_ready = true;
+                        self.last_ready = true;
                         let r = match item {
                             Item::Plain(r) | Item::NoInt(r) => {
-                                ev.push(Ev::Yield(r.id as u16));
+                                self.ev.push(Ev::Yield(r.id as u16));
                                 Some(r)
                             }
                             Item::Int(Some(r)) => {
-                                ev.push(Ev::YieldInterrupted(r.id as u16));
+                                self.ev.push(Ev::YieldInterrupted(r.id as u16));
                                 Some(r)
                             }
                             Item::Int(None) => {
-                                ev.push(Ev::InterruptedNone);
+                                self.ev.push(Ev::InterruptedNone);
                                 None
                             }
                         };
                         if let Some(r) = r {
                             let id = r.id;
-                            yielded[id] = true;
-                            if held[id].is_some() {
-                                // double yield: keep the first, drop the second right away; the
-                                // oracle reports it from the event log.
-                                drop(r);
-                            } else {
-                                held[id] = Some(r);
+                            if id < n {
+                                self.yielded[id] = true;
+                                if self.held[id].is_some() {
+                                    // double yield: keep the first, drop the second right away; the
+                                    // oracle reports it from the event log.
+                                    drop(r);
+                                } else {
+                                    self.held[id] = Some(r);
+                                }
                             }
                         }
                     }
                     Poll::Ready(None) => {
-                        ev.push(Ev::StreamEnd);
-                        ended = true;
-                        last_ready = false;
+                        self.ev.push(Ev::StreamEnd);
+                        self.ended = true;
+                        self.last_ready = false;
                     }
                     Poll::Pending => {
-                        last_ready = false;
-                        ev.push(Ev::Pending { woken: fw.woken() });
+                        self.last_ready = false;
+                        self.ev.push(Ev::Pending { woken: self.fw.woken() });
                     }
                 }
             }
             Act::Drop(i) => {
-                dirty = true;
-                ev.push(Ev::Drop(i as u16));
-                held[i] = None;
+                self.dirty = true;
+                self.ev.push(Ev::Drop(i as u16));
+                self.held[i] = None;
             }
             Act::Interrupt => {
-                int_sent = true;
-                ev.push(Ev::Interrupt);
-                itx.try_send(InterruptSignal).expect("interrupt channel has room");
+                self.int_sent = true;
+                self.ev.push(Ev::Interrupt);
+                self.itx.try_send(InterruptSignal).expect("interrupt channel has room");
             }
             Act::DropStream => {
-                ev.push(Ev::DropSubject);
-                s = None;
+                self.ev.push(Ev::DropSubject);
+                self.s = None;
             }
         }
+        None
     }
 }
